@@ -96,7 +96,7 @@ func c23(x *ctx) {
 		}
 		return o
 	}
-	forms := []string{"mid-file", "last-line", "in-method"}
+	forms := []string{"mid-file", "last-line", "in-method", "bare"}
 	mk := func(setup, recv string, required, allowed, forbid map[string]bool, feat string) {
 		for _, f := range forms {
 			var src string
@@ -108,13 +108,20 @@ func c23(x *ctx) {
 			case "last-line":
 				src = setup + recv + ".\n"
 				row = strings.Count(setup, "\n") + 1
+			case "bare":
+				// the form the editor plugin (and the goldens) use: the receiver alone on the row
+				src = setup + recv + "\nzz_after = 1\n"
+				row = strings.Count(setup, "\n") + 1
 			case "in-method":
-				src = setup + "def zz_wrapper\n  zz_r = " + recv + "\n  zz_r.\n  1\nend\nzz_wrapper\n"
-				row = strings.Count(setup, "\n") + 3
-				if strings.Contains(recv, "rv") {
-					// a top-level local is not visible inside the method: rebuild the receiver there
+				// a top-level local is not visible inside the method: rebuild the receiver there
+				expr := recv
+				if e, ok := map[string]string{"ua": "Animal.new", "up": "Puppy.new", "uh": "Holder.new", "uk": "Nsp::Kid.new", "ui": "Nsp::Inc.new"}[recv]; ok {
+					expr = e
+				} else if recv == "rv" {
 					continue
 				}
+				src = setup + "def zz_wrapper\n  zz_r = " + expr + "\n  zz_r.\n  1\nend\nzz_wrapper\n"
+				row = strings.Count(setup, "\n") + 3
 			}
 			progs = append(progs, prog{src, row, required, allowed, forbid, feat + ":" + f})
 		}
@@ -146,6 +153,12 @@ func c23(x *ctx) {
 	mk(userDefs, "Animal", map[string]bool{"create": true, "new": true}, union(map[string]bool{"create": true, "new": true}, objKernel), map[string]bool{"speak": true, "secret": true, "adopt": true, "unrelated_m": true}, "user-class:Animal")
 	mk(userDefs, "Puppy", map[string]bool{"create": true, "adopt": true, "new": true}, union(map[string]bool{"create": true, "adopt": true, "new": true}, objKernel), map[string]bool{"fetch": true, "secret": true, "unrelated_m": true}, "user-class:Puppy")
 
+	// hierarchies inside a namespace and module-in-module inclusion
+	nsDefs := "module Mone\n  def m_one\n    1\n  end\nend\nmodule Mtwo\n  include Mone\n  def m_two\n    2\n  end\nend\nclass Holder\n  include Mtwo\n  def own_h\n    3\n  end\nend\n" +
+		"module Nsp\n  class Basis\n    def base_m\n      1\n    end\n  end\n  class Kid < Basis\n    def kid_m\n      2\n    end\n  end\n  class Inc\n    include Mone\n    def inc_m\n      3\n    end\n  end\nend\n"
+	mk(nsDefs+"uh = Holder.new\n", "uh", map[string]bool{"own_h": true, "m_two": true, "m_one": true}, union(map[string]bool{"own_h": true, "m_two": true, "m_one": true}, objKernel), map[string]bool{"base_m": true, "kid_m": true, "inc_m": true}, "user-instance:Holder")
+	mk(nsDefs+"uk = Nsp::Kid.new\n", "uk", map[string]bool{"kid_m": true, "base_m": true}, union(map[string]bool{"kid_m": true, "base_m": true}, objKernel), map[string]bool{"own_h": true, "inc_m": true, "m_two": true}, "user-instance:NspKid")
+	mk(nsDefs+"ui = Nsp::Inc.new\n", "ui", map[string]bool{"inc_m": true, "m_one": true}, union(map[string]bool{"inc_m": true, "m_one": true}, objKernel), map[string]bool{"own_h": true, "kid_m": true, "base_m": true}, "user-instance:NspInc")
 	cases := make([]*engine.Case, len(progs))
 	for i, p := range progs {
 		cases[i] = &engine.Case{Cfg: "core", Files: map[string]string{"t.rb": p.src}, Argv: []string{"t.rb", "--suggest", fmt.Sprintf("--row=%d", p.row)}}
